@@ -169,6 +169,17 @@ def draw(gen):
             fr.append(C.mk_continuation(sid, piece, last and rng.random() < 0.8))
         raw = b''.join(f.serialize() for f in fr)
         return {'ev': 'inject', 'dir': d, 'pos': pos, 'bytes': raw}
+    if 0.85 <= r_special < 0.85 + gen.P.get('adv_repromise', 0.04) and not vt.closed and not victim_is_server:
+        # a promise of an id that was promised before (now reset, finished, still reserved, or in use), on a parent
+        # that is perfectly able to carry promises
+        used = [x for x in vt.streams.values() if x.sid % 2 == 0]
+        parents = [x for x in vt.streams.values() if x.mine and not x.pushed and x.state in ('open', 'hcL')]
+        if used and parents:
+            frag, _ = _block(gen, stub, 'request')
+            fr = C.mk_push_promise(rng.choice(parents).sid, rng.choice(used).sid, frag, True, None)
+            if spans:
+                pos = spans[0][0]
+            return {'ev': 'inject', 'dir': d, 'pos': pos, 'bytes': fr.serialize()}
     hot = [h for h in getattr(gen, 'hot_ids', {}).get(victim, []) if vt.get(h) is None]
     if 0.7 <= r_special < 0.7 + gen.P.get('adv_hot', 0.12) and not vt.closed and hot:
         # an id the victim's application named in a refused call and that (rightly) does not exist: well-formed frames
